@@ -202,6 +202,12 @@ def run(ctx):
         ctx.ob("C10.G.single-word", f.key, "more than one word variant", len(has(r"discr\(self\.base\.data\)=Enum", r"Gt\(len\(.*\), 1_usize\)=True")) == 1, "guarded error")
         for blk, e, pc in pushes:
             ctx.ob("C10.G.error-spanned", f.key, "body rule", e.startswith("darling_core::error::Error::with_span("), e[:120])
+        # the word rules count every variant that carries a `word` annotation
+        fms = ctx.find_calls(f, r"Iterator>::filter_map|Iterator::filter_map")
+        okw = len(fms) == 1 and re.match(r"^core::slice::<impl \[T\]>::iter\(\(self\.base\.data as Enum\)\.0\)$", ctx.expr(f, fms[0][1]["args"][0])) is not None
+        cl_ = [c for c in ctx.closures_of(f) if [(e_, ctx.pc_strs(c, b_)) for b_, e_ in ctx.ret_exprs(c)] == [("a2.word", [set()])]]
+        ctx.ob("C10.G.word-rules-over-all-variants", f.key, "word_variants = data.iter().filter_map(|v| v.word.as_ref())", okw and len(cl_) == 1,
+               "the `word` rules must see every variant that carries the annotation: source %s, selecting closures %d" % ([ctx.expr(f, t_["args"][0])[:120] for _, t_ in fms], len(cl_)))
         base = ctx.find_calls(f, "^" + re.escape(vb % "core::Core") + "$")
         ctx.ob("C10.P.body-rules-chain", f.key, "base.validate_body(errors)", len(base) == 1, "the single-flatten rule must run for FromMeta receivers too")
     f = ctx.fn(vb % "outer_from::OuterFrom")
